@@ -1595,14 +1595,16 @@ static size_t _GD_DoMplex(DIRFILE *restrict D, gd_entry_t *restrict E,
         return 0;
       }
 
-      /* find the sample */
-      i = n_read3 - 1;
-      do {
-        if (tmpbuf2[i] == E->EN(mplex,count_val)) {
-          lb_sample = chunk_start + i;
-          break;
-        }
-      } while (i-- != 0);
+      /* find the sample (the index field may have returned nothing) */
+      if (n_read3 > 0) {
+        i = n_read3 - 1;
+        do {
+          if (tmpbuf2[i] == E->EN(mplex,count_val)) {
+            lb_sample = chunk_start + i;
+            break;
+          }
+        } while (i-- != 0);
+      }
       free(tmpbuf2);
     }
 
